@@ -223,3 +223,29 @@ func zzC01_bmff_sizes() {
 	}
 	zzReached("end")
 }
+
+// CTBO: record indices and the count are arbitrary (classes), offsets/lengths concrete
+func zzC01_bmff_ctbo() {
+	const N = 24 + 8 + 24 + 8 + 4 + 40 + 8
+	z := &zzBuf{b: make([]byte, N)}
+	z.str(0, zzFtyp)
+	z.box(24, N-24-8, "moov")
+	z.box(32, N-32-8, "uuid")
+	z.str(40, zzUUIDs[0])
+	z.box(56, 8+4+40, "CTBO")
+	cnt := zzU32("cnt")
+	zzAssume(cnt <= 6 || cnt == 0xffffffff)
+	z.put32(64, uint32(zzConc(uint64(cnt), 8)))
+	for r := 0; r < 2; r++ {
+		idx := zzU32([]string{"i0", "i1"}[r])
+		zzAssume(idx <= 6 || idx == 0x7fffffff || idx == 0x80000000 || idx == 0xffffffff)
+		z.put32(68+20*r, uint32(zzConc(uint64(idx), 10)))
+		z.put32(68+20*r+8, 100)
+		z.put32(68+20*r+16, 200)
+	}
+	z.box(N-8, 8, "free")
+	for mode := 0; mode < 2; mode++ {
+		_ = zzBmffRun(z.b, 2, mode, false)
+	}
+	zzReached("end")
+}
